@@ -27,8 +27,9 @@ type schedConn struct {
 	closed    bool
 	failFirst int // >= 0: the parked Write accepts only this many bytes and then fails
 	failed    bool
-	inWrite   bool // a Write is parked inside the transport (its caller holds the connection)
-	swdDuring int  // SetWriteDeadline calls that arrived while that Write was in flight
+	inWrite   bool   // a Write is parked inside the transport (its caller holds the connection)
+	swdDuring int    // SetWriteDeadline calls that arrived while that Write was in flight
+	rbuf      []byte // bytes the peer sent (read side), served once; then reads block
 }
 
 func (c *schedConn) Write(p []byte) (int, error) {
@@ -64,7 +65,17 @@ func (c *schedConn) Write(p []byte) (int, error) {
 	c.mu.Unlock()
 	return len(p), nil
 }
-func (c *schedConn) Read(p []byte) (int, error)        { select {} }
+func (c *schedConn) Read(p []byte) (int, error) {
+	c.mu.Lock()
+	if len(c.rbuf) > 0 {
+		n := copy(p, c.rbuf)
+		c.rbuf = c.rbuf[n:]
+		c.mu.Unlock()
+		return n, nil
+	}
+	c.mu.Unlock()
+	select {}
+}
 func (c *schedConn) Close() error                      { c.mu.Lock(); c.closed = true; c.mu.Unlock(); return nil }
 func (c *schedConn) LocalAddr() net.Addr               { return tAddr{} }
 func (c *schedConn) RemoteAddr() net.Addr              { return tAddr{} }
@@ -86,8 +97,67 @@ type delayPool struct{}
 func (delayPool) Get() interface{}  { return nil }
 func (delayPool) Put(v interface{}) { time.Sleep(3 * time.Millisecond) }
 
+// a reader with the default handlers while the writer sits inside the transport for longer than the
+// handlers' own write deadline (1 s): the pong / close echo cannot get the connection, and that must be
+// harmless — the reader goes on and delivers what follows (C11 "does not poison the connection")
+func runSchedBlockedWriterReader(seed int64, r *rand.Rand) *scenario {
+	sc := &scenario{kind: "sched", seed: seed}
+	srv := r.Intn(2) == 0
+	sconn := &schedConn{gate: make(chan struct{}), entered: make(chan struct{}), failFirst: -1}
+	ks := &keySource{keys: []byte{1, 2, 3, 4, 5, 6, 7, 8}}
+	restore := websocket.VerifSetMaskRand(&lockedReader{r: ks})
+	defer restore()
+	ping := encFrame{fin: true, op: 9, payload: []byte("are-you-there")}
+	text := encFrame{fin: true, op: 1, payload: []byte("behind-the-ping")}
+	if srv {
+		ping.masked, ping.key = true, [4]byte{9, 8, 7, 6}
+		text.masked, text.key = true, [4]byte{1, 1, 2, 3}
+	}
+	sconn.rbuf = append(ping.encode(), text.encode()...)
+	c := websocket.VerifNewConn(sconn, srv, 0, 512, nil, nil, nil)
+	var wg sync.WaitGroup
+	var werr error
+	wg.Add(1)
+	go func() { defer wg.Done(); werr = c.WriteMessage(2, []byte("held-in-the-transport")) }()
+	select {
+	case <-sconn.entered:
+	case <-time.After(30 * time.Second):
+		sc.violate("writer never reached the transport")
+		return sc
+	}
+	type res struct {
+		t   int
+		p   []byte
+		err error
+	}
+	done := make(chan res, 1)
+	go func() { t, p, err := c.ReadMessage(); done <- res{t, p, err} }()
+	select {
+	case x := <-done:
+		if x.err != nil || x.t != 1 || string(x.p) != "behind-the-ping" {
+			sc.violate("writer blocked in the transport for longer than the ping handler's deadline: ReadMessage returned (%d, %q, %v); the message behind the ping must still be delivered", x.t, x.p, x.err)
+		}
+	case <-time.After(30 * time.Second):
+		sc.violate("ReadMessage did not return while the writer was blocked in the transport")
+	}
+	close(sconn.gate)
+	wg.Wait()
+	if werr != nil {
+		sc.violate("the held data frame failed: %v", werr)
+	}
+	if err := c.WriteMessage(1, []byte("after")); err != nil {
+		sc.violate("connection poisoned by the pong that could not be sent: %v", err)
+	}
+	sc.emit(fmt.Sprintf("sched seed=%d srv=%d blocked-writer-reader", seed, b2i(srv)), "ok")
+	sc.tag("blocked-writer-reader")
+	return sc
+}
+
 func runSchedScenario(seed int64) *scenario {
 	r := rand.New(rand.NewSource(seed))
+	if r.Intn(25) == 0 {
+		return runSchedBlockedWriterReader(seed, r)
+	}
 	sc := &scenario{kind: "sched", seed: seed}
 	srv := r.Intn(2) == 0
 	sconn := &schedConn{gate: make(chan struct{}), entered: make(chan struct{}), failFirst: -1}
@@ -481,14 +551,14 @@ func runConcScenario(seed int64) *scenario {
 						cs.err = err
 						return
 					}
-					cs.sent = append(cs.sent, apiMsg{2, p})
+					cs.sent = append(cs.sent, apiMsg{t: 2, payload: p})
 				default:
 					d := pms[lr.Intn(len(pms))]
 					if err := cs.c.WritePreparedMessage(d.pm); err != nil {
 						cs.err = err
 						return
 					}
-					cs.sent = append(cs.sent, apiMsg{d.t, d.data})
+					cs.sent = append(cs.sent, apiMsg{t: d.t, payload: d.data})
 				}
 			}
 		}(cs, seeds[i])
